@@ -52,7 +52,11 @@ def tp_message(i, row, base, marks):
     if row['frame_type'] != 'absent':
         args['frame_type'] = 'weird_frame' if row['frame_type'] == 'bogus' else row['frame_type']
     watches = ['v + %d' % (100 * i)] if row['watches'] else []
-    metrics = [Metric(name='m%d_%d' % (i, j + 1), type=MetricType.COUNTER) for j in range(row['metrics'])]
+    if row['metrics'] == 7:
+        # a metric type this agent does not know (a newer service): legal on the wire, the enum is open
+        metrics = [Metric(name='m%d_1' % i, type=7)]
+    else:
+        metrics = [Metric(name='m%d_%d' % (i, j + 1), type=MetricType.COUNTER) for j in range(row['metrics'])]
     return TracePointConfig(ID='tp%d' % i, path=base, line_number=marks[row['loc']], args=args, watches=watches,
                             metrics=metrics)
 
@@ -136,6 +140,8 @@ def registered_in_code(c, wd, rows_list):
     base = path.rsplit('/', 1)[-1]
     shown = 0
     for row in rows_list:
+        if row['metrics'] == 7:
+            continue        # (an unknown metric type only exists on the wire; MetricDefinition takes the type by name)
         sysm = CS.SyncSystem()
         plugin = R.role_plugin('rec', {'log', 'metric', 'span'})
         sysm.cfg.plugins = [plugin]
